@@ -79,6 +79,8 @@ def confirm(sc: Scratch, prep: dict, r: HarnessResult, log_dir: Path) -> dict:
         variants = [base]
         if base["explicit_profile"] and not base["env_profile"]:
             variants.append({**base, "env_profile": base["explicit_profile"]})
+        # ... and with a relative configuration directory, under the working directory or in one of its ancestors
+        variants += [{**v, "dir_mode": m} for v in list(variants) for m in ("relative", "ancestor")]
         for script in variants:
             script = dict(script)
             script["_origin"] = {"harness": r.spec.name, "failed": role}
